@@ -17,10 +17,14 @@
 import MW.Lemmas.ApiSound
 import MW.Lemmas.ApiSafe
 import MW.Lemmas.ApiStall
+import MW.Lemmas.ApiBackedEx
+import MW.Lemmas.ApiBackedLedger2
 import MW.Gen.Sites
 namespace MW.Props.C19
 open MW.Model.Api MW.Lemmas.ApiSound MW.Lemmas.ApiSafe
 open MW.Lemmas.ApiStall (supportedOracle)
+open MW.Lemmas.ApiContracts (CallNode Holds progCalls)
+open MW.Lemmas.ApiBacked (Backed ScriptBacked LedgerBacked AmountBacked KeystoreBacked isBacked backedOracle)
 
 /-- TIE B. The skeleton model contains exactly the partial-operation sites (index, slice, map assignment,
     dereference of a possibly-nil result, type assertion, request-field conversion) that the extractor finds
@@ -181,5 +185,118 @@ theorem no_stall_partial (O : Oracle) (n : Nat) (σ : State)
 /-- the hypothesis of `no_stall_partial` is satisfiable -/
 example : ∃ (O : Oracle) (σ : State), (O "utils.ParsePkScript" σ).getD 1 0 ≠ 0 ∧ (O "utils.ParsePkScript" σ).getD 2 0 ≠ 0 :=
   ⟨fun _ _ => [0, 1, 1], fun _ => 0, by simp⟩
+
+-- ------------------------------------------------------------------ the contracts of outside code, reduced
+
+/-- THE CONTRACT TABLE IS COMPLETE AND EXACT: every call node of the model that carries a contract is a driver
+    mark or belongs to a callee classified in `MW.Lemmas.ApiBacked.classTable` (model / modelOpen / goLang /
+    external / internal); the table names no callee twice and none the model does not call with a contract. -/
+theorem contracts_classified :
+    progCalls.all (fun c => c.2.2.isEmpty || MW.Lemmas.ApiBacked.isMark c.1 || (MW.Lemmas.ApiBacked.classOf c.1).isSome) = true ∧
+    (MW.Lemmas.ApiBacked.classTable.map (·.1)).Nodup ∧
+    MW.Lemmas.ApiBacked.classTable.all (fun p => progCalls.any (fun c => c.1 == p.1 && !c.2.2.isEmpty)) = true :=
+  ⟨MW.Lemmas.ApiBacked.classTable_complete, MW.Lemmas.ApiBacked.classTable_exact⟩
+
+/-- WHY A RUN ENDS IN `Fault.contract g` (every table, oracle, budget): it passed a call node of `g` in a state
+    where the oracle's answer broke that node's contract -/
+theorem contract_fault_inv (P : Prog) (O : Oracle) (n : Nat) (s : Stmt) (σ : State) (g : String)
+    (h : run P O n s σ = .error (.contract g)) :
+    ∃ c, MW.Lemmas.ApiContracts.Occurs P s c ∧ c.1 = g ∧ ∃ τ, ¬ MW.Lemmas.ApiContracts.HoldsAt O c τ :=
+  MW.Lemmas.ApiContracts.fault_inv P O n s σ _ h
+
+/-- CONTRACT (script, from the C16 model): `err == nil → ps != nil` at every `utils.ParsePkScript` node, when the
+    answer is computed by `MW.Model.Script.parsePkScript` from some script -/
+theorem contract_script_ParsePkScript (O : Oracle) (h : ScriptBacked O) :
+    ∀ c ∈ MW.Lemmas.ApiBacked.parseNodes, Holds O c := MW.Lemmas.ApiBacked.contract_script_ParsePkScript h
+
+/-- … and C16's classification result, the hypothesis `C16Contract` of `no_stall_full`, is then a theorem -/
+theorem contract_script_C16 (O : Oracle) (h : ScriptBacked O) : C16Contract O :=
+  ⟨MW.Lemmas.ApiBacked.script_backed_total h⟩
+
+/-- CONTRACT (ledger, from C01's invariant): the five clauses of `w.txStore.ExistsTx` – in particular
+    `err == nil → vout < len(prevTx.TxOut)`: under `Inv c s chain` and `ChainValid` a credit / unspent entry belongs
+    to an existing output of a transaction of the chain – when the answer is computed by
+    `MW.Model.ApiLedger.existsTx` on such a store for the outpoint index the skeleton holds in `vout` -/
+theorem contract_ledger_ExistsTx (O : Oracle) (h : LedgerBacked O) : Holds O MW.Lemmas.ApiBacked.existsTxNode :=
+  MW.Lemmas.ApiBacked.contract_ledger_ExistsTx h
+
+theorem contract_ledger_ExistUnminedTx (O : Oracle) (h : LedgerBacked O) :
+    Holds O MW.Lemmas.ApiBacked.existUnminedNode := MW.Lemmas.ApiBacked.contract_ledger_ExistUnminedTx h
+
+/-- the model-level fact behind it: a successful ExistsTx returns a transaction that has the requested output -/
+theorem ledger_existsTx_index {c : MW.Model.Ledger.Ctx} {s : MW.Model.Ledger.Store} {chain : List MW.Model.Ledger.Block}
+    (hI : MW.Lemmas.Ledger.Inv c s chain) (hV : MW.Lemmas.Ledger.ChainValid c.own chain)
+    (hid : MW.Lemmas.ApiBacked.TxIdsAgree chain c.node) {cur tx : String} {idx : Nat}
+    {t : MW.Model.Ledger.Tx} {blk : MW.Model.Ledger.BlockMeta}
+    (h : MW.Model.ApiLedger.existsTx s c.node cur tx idx = some (t, blk)) : idx < t.outs.length ∧ t.id = tx :=
+  MW.Lemmas.ApiBacked.existsTx_index hI hV hid h
+
+/-- … with C01's own hypotheses only (no `TxIdsAgree`): when the wallet's chain is a prefix of the node's valid best
+    chain – the follower is level with the node or behind it on the same branch – ids name one transaction because a
+    valid chain has no duplicate transaction id (`txIdsAgree_of_prefix`) -/
+theorem ledger_existsTx_index_prefix {c : MW.Model.Ledger.Ctx} {s : MW.Model.Ledger.Store} {chain rest : List MW.Model.Ledger.Block}
+    (hI : MW.Lemmas.Ledger.Inv c s chain) (hN : c.node.chain = chain ++ rest)
+    (hV : MW.Lemmas.Ledger.ChainValid c.own c.node.chain) {cur tx : String} {idx : Nat}
+    {t : MW.Model.Ledger.Tx} {blk : MW.Model.Ledger.BlockMeta}
+    (h : MW.Model.ApiLedger.existsTx s c.node cur tx idx = some (t, blk)) : idx < t.outs.length ∧ t.id = tx :=
+  MW.Lemmas.ApiBacked.existsTx_index_prefix hI hN hV h
+
+/-- its hypotheses hold for the worked store (node chain = wallet chain G – b1 – c2, `rest = []`) with a successful lookup -/
+example : MW.Lemmas.ApiBacked.exCtx.node.chain = MW.Lemmas.ApiBacked.exChain ++ [] ∧
+    MW.Lemmas.Ledger.ChainValid MW.Lemmas.ApiBacked.exCtx.own MW.Lemmas.ApiBacked.exCtx.node.chain ∧
+    (MW.Model.ApiLedger.existsTx MW.Lemmas.ApiBacked.exStore MW.Lemmas.ApiBacked.exCtx.node "w1" "c1" 0).isSome = true :=
+  ⟨rfl, MW.Lemmas.ApiBacked.exValid, by rw [MW.Lemmas.ApiBacked.exExists0]; rfl⟩
+
+/-- CONTRACTS (amount, from the C15 model): `strings.Split(s, ".")` has ≥ 1 part (Dec.splitDot), the decimal string
+    of `u + 10^8` has ≥ 9 digits (Dec.render) -/
+theorem contract_amount (O : Oracle) (h : AmountBacked O) :
+    Holds O MW.Lemmas.ApiBacked.splitNode ∧ Holds O MW.Lemmas.ApiBacked.stringNode :=
+  ⟨MW.Lemmas.ApiBacked.contract_amount_Split h, MW.Lemmas.ApiBacked.contract_amount_String h⟩
+
+/-- CONTRACTS (keystore, from the C04/C12 model): a successful `NextAddresses(…, 1, …)` returns one non-nil managed
+    address (`ksNextAddresses`); the lookups `Address`, `GetAddrManager`, `GetAddrManagerByAccountID`,
+    `GetManagedAddressByScriptHashInCurrent` return a value or an error -/
+theorem contract_keystore (O : Oracle) (h : KeystoreBacked O) :
+    Holds O MW.Lemmas.ApiBacked.nextAddressesNode ∧ ∀ c ∈ MW.Lemmas.ApiBacked.lookupNodes, Holds O c :=
+  ⟨MW.Lemmas.ApiBacked.contract_keystore_NextAddresses h, MW.Lemmas.ApiBacked.contract_keystore_lookups h⟩
+
+/-- HANDLER TOTALITY, REDUCED ASSUMPTIONS. For an oracle that answers the class-(a) callees (11 callees, 17 call-node
+    variants: script, ledger, amount, keystore) by running the Lean models of C16 / C01 / C15 / C04-C12, every run of
+    every entry point ends in a value, out of budget, or in a broken contract of a callee that is NOT class (a):
+    no panic (`handler_total`), no `unknownFn` (every invoked position is defined), and no broken contract of a
+    backed callee (proved, `contract_*`). What remains assumed is exactly the contracts of classes (a-), (b), (c), (d)
+    of the table. -/
+theorem handler_total_reduced (r : Nat) (hr : r ∈ rootIdList) (O : Oracle) (hB : Backed O) (n : Nat) (σ : State) :
+    (∃ fl, run prog O n (.invoke r) σ = .ok fl) ∨ run prog O n (.invoke r) σ = .error .fuel ∨
+    ∃ g, isBacked g = false ∧ run prog O n (.invoke r) σ = .error (.contract g) :=
+  MW.Lemmas.ApiBacked.reduced_outcome hB r hr n σ
+
+/-- the same for the follower / worker / start-up entry points by name -/
+theorem follower_total_reduced (O : Oracle) (hB : Backed O) (n : Nat) (σ : State) :
+    ∀ r ∈ [Fn.handle, Fn.worker, Fn.processConnectedBlock, Fn.proccessReceivedTx, Fn.asyncImport, Fn.asyncRemove, Fn.Start_wallet],
+      (∃ fl, run prog O n (.invoke r) σ = .ok fl) ∨ run prog O n (.invoke r) σ = .error .fuel ∨
+      ∃ g, isBacked g = false ∧ run prog O n (.invoke r) σ = .error (.contract g) :=
+  fun r hr => MW.Lemmas.ApiBacked.reduced_outcome hB r (MW.Lemmas.ApiBacked.followerRoots_mem r hr) n σ
+
+/-- `Backed` is satisfiable by an oracle that runs the models on concrete inputs, non-trivially: its ExistsTx answer
+    for vout = 0 is the SUCCESS answer computed from the store reached by the worked reorganisation history of
+    MW.Lemmas.LedgerHistoryEx (credit (c1, 0) of wallet "w1", one output) -/
+example : Backed backedOracle ∧ ∀ σ : State, σ (V "vout") = 0 → backedOracle "w.txStore.ExistsTx" σ = [1, 1, 0, 0, 1] :=
+  ⟨MW.Lemmas.ApiBacked.backedOracle_backed, MW.Lemmas.ApiBacked.backedOracle_existsTx⟩
+
+/-- the backed callees -/
+example : MW.Lemmas.ApiBacked.backedNames = ["acctM.Address", "ks.Address(from)", "strings.Split(s, \".\")", "u.String",
+    "utils.ParsePkScript", "w.ksmgr.GetAddrManager", "w.ksmgr.GetAddrManagerByAccountID",
+    "w.ksmgr.GetManagedAddressByScriptHashInCurrent", "w.ksmgr.NextAddresses", "w.txStore.ExistUnminedTx",
+    "w.txStore.ExistsTx"] := by decide +kernel
+
+/-- NO STALL with C16's contract PROVED instead of assumed: for a script-backed oracle only the keystore lookup
+    hypothesis of `no_stall_loop` remains -/
+theorem no_stall_backed (O : Oracle) (n : Nat) (σ : State) (hs : ScriptBacked O)
+    (hk : ∀ τ, (O "w.ksmgr.GetManagedAddressByScriptHash" τ).getD 1 0 = 0) :
+    ∀ τ, run prog O n (.loop "ft.o" "tx.TxOut" [.nz "rec"] filterTxOutStep) σ ≠ .ok (.retd τ) :=
+  no_stall_loop O n σ (contract_script_C16 O hs) hk
+
+example : ScriptBacked backedOracle := MW.Lemmas.ApiBacked.backedOracle_backed.script
 
 end MW.Props.C19
